@@ -98,10 +98,17 @@ macro_rules! primitive {
             extern "C" fn wrapper<'thread $(, $($params)*)?>(thread: &'thread $crate::thread::Thread) -> $crate::thread::Status
                 $(where $($where_)*)?
             {
-                $crate::api::VmFunction::unpack_and_call(
-                    &($func as $func_type),
-                    thread,
-                )
+                // A panic must not unwind out of an `extern "C"` function (that aborts the whole
+                // process), report it to the caller of the primitive as an ordinary error instead
+                match ::std::panic::catch_unwind(::std::panic::AssertUnwindSafe(|| {
+                    $crate::api::VmFunction::unpack_and_call(
+                        &($func as $func_type),
+                        thread,
+                    )
+                })) {
+                    Ok(status) => status,
+                    Err(payload) => $crate::api::mac::panic_to_error(thread, payload),
+                }
             }
 
             $crate::api::Primitive::<$func_type> {
@@ -116,6 +123,26 @@ macro_rules! primitive {
 #[doc(hidden)]
 pub fn phantom<F>(_: F) -> PhantomData<F> {
     PhantomData
+}
+
+/// Turns the payload of a panic that happened inside a primitive into the error of that primitive
+#[doc(hidden)]
+pub fn panic_to_error(
+    thread: &crate::thread::Thread,
+    payload: Box<dyn ::std::any::Any + Send>,
+) -> crate::thread::Status {
+    let msg = if let Some(s) = payload.downcast_ref::<&str>() {
+        (*s).to_string()
+    } else if let Some(s) = payload.downcast_ref::<String>() {
+        s.clone()
+    } else {
+        "Unknown panic".to_string()
+    };
+    let mut context = thread.current_context();
+    let mut context = context.context();
+    let msg = context.gc.alloc_ignore_limit(msg.as_str());
+    context.stack.push(crate::Variants::from(msg));
+    crate::thread::Status::Error
 }
 
 #[doc(hidden)]
